@@ -170,6 +170,110 @@ def close_twice_model(ctx):
     ctx.notes["close_twice_model"] = {"once": "holds", "cas": "holds", "check-then-act": "rejected (NoPanic)"}
 
 
+LT_LATE = ["data", "data"]   # bytes of the session so far that the read loop is still working through when Close is called (seen under load)
+LT_FEED = {"idle": ([], LT_LATE), "eof": (["eof"], []), "err": (["err"], []), "data-arriving": ([], ["data"] * 32), "err-arriving": ([], LT_LATE + ["err"]),
+           "eof-arriving": ([], LT_LATE + ["eof"]), "inflight": ([], LT_LATE), "after-error-op": (["err"], []), "after-timeout-op": ([], LT_LATE + ["data"])}
+LT_ROLE = {"R": "reader", "C": "closer", "NC": "closer", "N": "ncreader", "O": "op"}
+
+
+def lifecycle_blocks(scns, res):
+    """Projection of the recorded yield sequences for LifecycleTrace.tla (see the module header): one block per run on the scripted
+    pipe with sequential Closes; the header is the cell of the model's matrix the run belongs to."""
+    blocks = []
+    for r in res:
+        sc = scns[r["id"]]
+        seq = (r.get("extra") or {}).get("seq")
+        if not r.get("ok") or seq is None or sc["state"] not in LT_FEED:
+            continue
+        if sc.get("transport") or sc.get("meet") or sc.get("poll") or len(seq) >= 400:
+            continue
+        nc = sc["driver"] == "netconf"
+        hasop = sc["state"] == "inflight"
+        feed, arrive = LT_FEED[sc["state"]]
+        b = [json.dumps({"ev": "reset", "netconf": nc, "hasop": hasop, "closes": sc["closes"], "closebeh": sc["closebeh"], "feed": feed, "arrive": arrive,
+                         "scn": r["id"]})]
+        for lab in seq:
+            fam = family(lab)
+            if lab in ("R_sent", "N_sent") or fam not in LT_ROLE:
+                continue
+            if fam == "O" and (nc or not hasop):
+                continue
+            b.append(json.dumps({"ev": "y", "p": LT_ROLE[fam], "l": lab}))
+        blocks.append(b)
+    return blocks
+
+
+def lifecycle_traces(ctx, scns, res):
+    """V: every recorded yield sequence must be a behaviour of Lifecycle.tla (protocol v2). A rejection is model drift (V3), a note.
+    The log is validated in chunks by parallel TLC runs (depth first, stopping at the first accepting path); only a chunk that
+    contains a rejection has to be explored completely."""
+    import concurrent.futures
+    blocks = lifecycle_blocks(scns, res)
+    if os.environ.get("VERIF_LT_DUMP"):
+        with open(os.environ["VERIF_LT_DUMP"], "w") as fh:
+            fh.write("".join(l + "\n" for b in blocks for l in b))
+
+    def chunk(rest):
+        drift, accepted, events = [], 0, 0
+        while rest and len(drift) < 3:
+            text = "".join(l + "\n" for b in rest for l in b)
+            r = ctx.tlc("LifecycleTrace", workers=1, files={"trace.ndjson": text}, dfs=True, expect_violation=True, timeout=1500)
+            rej = [s for s in r["scn"] if "rejectedAt" in s]
+            if not rej:
+                if r["violated"] or not r["ok"]:
+                    raise ToolError("LifecycleTrace.tla failed without a rejection index:\n" + r["stdout"][-2000:])
+                accepted += len(rest)
+                events += sum(len(b) - 1 for b in rest)
+                break
+            k = rej[0]["rejectedAt"]
+            pos = 0
+            bad = len(rest) - 1
+            for i, b in enumerate(rest):
+                if pos < k <= pos + len(b):
+                    bad = i
+                    break
+                pos += len(b)
+            off = k - pos
+            hdr = json.loads(rest[bad][0])
+            drift.append({"scenario": scns[hdr["scn"]], "rejected_event_index": off, "event": rest[bad][off - 1] if 0 < off <= len(rest[bad]) else "",
+                          "trace": [json.loads(x).get("l", "reset") for x in rest[bad]][:80]})
+            accepted += bad
+            events += sum(len(b) - 1 for b in rest[:bad])
+            rest = rest[bad + 1:]
+        return drift, accepted, events
+
+    size = 100
+    chunks = [blocks[i:i + size] for i in range(0, len(blocks), size)]
+    drift, accepted, events = [], 0, 0
+    with concurrent.futures.ThreadPoolExecutor(8) as ex:
+        for d, a, e in ex.map(chunk, chunks):
+            drift += d
+            accepted += a
+            events += e
+    # binding guard: a log in which the orderly transport close (C_tclose) is claimed although the read loop left only afterwards
+    # must be rejected, and so must a log from which one hook of the closer has been removed
+    guard = {}
+    for b in blocks:
+        labs = [json.loads(x).get("l") for x in b]
+        if "C_tforce" in labs and "R_exit" in labs and labs.index("R_exit") > labs.index("C_tforce") and "claimed-orderly" not in guard:
+            bad = [x.replace('"C_tforce"', '"C_tclose"') for x in b]
+            guard["claimed-orderly"] = bool(chunk([bad])[0])
+        if "C_wait" in labs and "hook-removed" not in guard:
+            bad = [x for x in b if '"C_wait"' not in x]
+            guard["hook-removed"] = bool(chunk([bad])[0])
+        if len(guard) == 2:
+            break
+    if blocks and (len(guard) < 2 or not all(guard.values())):
+        raise ToolError("LifecycleTrace.tla accepts a corrupted yield sequence (%s): the trace validation has become vacuous" % guard)
+    ctx.notes["lifecycle_trace_validation"] = {"blocks": len(blocks), "accepted": accepted, "yield_events_accepted": events, "model_drift": drift[:8],
+                                               "corrupted_logs_rejected": guard}
+    ctx.traces_validated += accepted
+    if drift:
+        import sys
+        print("[C07] model_drift: %d recorded yield sequence(s) are not behaviours of Lifecycle.tla (a note, not a verdict): %s" % (len(drift), json.dumps(drift[0])[:600]), file=sys.stderr, flush=True)
+    return drift
+
+
 def scenarios(ctx, thorough):
     points = hook_points()
     ps = pairs(points, thorough)
@@ -303,6 +407,7 @@ def run(ctx):
             forced += 1
     ctx.notes["runs_with_forced_order"] = forced
     ctx.traces_validated = len(scns)
+    lifecycle_traces(ctx, scns, res)
     ctx.sample({"scenario": scns[5]})
     ok = [r for r in res if r.get("ok") and r.get("extra")]
     if ok:
